@@ -117,22 +117,22 @@ PROPS = {
             R("h23", "c03", "TestC03_Head", (20000, 8), (500000, 16, 3000)),
             R("h23", "c03", "TestC03_PublisherHead", (3000, 2), (100000, 8, 3000)),
             R("h23", "c03", "TestC03_PublisherConcurrent", (300, 4, 600), (30000, 16, 3000)),
-            R("h26", "c03w", "TestC03_Subscriber", (4000, 8, 1500), (300000, 16, 10000)),
+            R("h26", "c03w", "TestC03_Subscriber", (4000, 8, 500), (300000, 16, 10000)),
         ],
         "fuzz": [{"mod": "h23", "pkg": "c03", "target": "FuzzC03_Head", "secs": 300}],
     },
     "C01": {
         "level": "exploration",
         "units": [
-            R("h26", "c01", "TestC01_Random", (2500, 12, 1500), (240000, 16, 10000)),
-            E("h26", "c01", "TestC01_Sweep", (4, 1500), (16, 6000)),
+            R("h26", "c01", "TestC01_Random", (2500, 12, 500), (240000, 16, 10000)),
+            E("h26", "c01", "TestC01_Sweep", (4, 500), (16, 6000)),
         ],
     },
     "C02": {
         "level": "fault_enumeration",
         "units": [
-            R("h26", "c02", "TestC02_Random", (3000, 8, 1500), (300000, 16, 10000)),
-            E("h26", "c02", "TestC02_Exhaustive", (8, 1500), (16, 10000)),
+            R("h26", "c02", "TestC02_Random", (3000, 8, 500), (300000, 16, 10000)),
+            E("h26", "c02", "TestC02_Exhaustive", (8, 500), (16, 10000)),
             R("h26", "c02", "TestC02_Concurrent", (600, 4, 600), (60000, 16, 10000)),
             E("h26", "c02", "TestC02_Sizes", (8, 900), (16, 10000)),
         ],
@@ -140,37 +140,37 @@ PROPS = {
     "C04": {
         "level": "fault_enumeration",
         "units": [
-            R("h26", "c04", "TestC04_Random", (4000, 8, 1500), (400000, 16, 10000)),
-            E("h26", "c04", "TestC04_Exhaustive", (8, 1500), (16, 10000)),
+            R("h26", "c04", "TestC04_Random", (4000, 8, 500), (400000, 16, 10000)),
+            E("h26", "c04", "TestC04_Exhaustive", (8, 500), (16, 10000)),
             R("h26", "c04", "TestC04_QueuedAnnounce", (1200, 8, 600), (100000, 16, 10000)),
         ],
     },
     "C06": {
         "level": "exploration",
         "units": [
-            R("h26", "c06", "TestC06_Model", (16000, 8, 1500), (4000000, 16, 10000)),
+            R("h26", "c06", "TestC06_Model", (16000, 8, 500), (4000000, 16, 10000)),
             R("h23", "c06h", "TestC06_HTTPSource", (600, 4, 600), (40000, 16, 10000)),
         ],
     },
     "C07": {
         "level": "exploration",
         "units": [
-            R("h26", "c07", "TestC07_Bubble", (4000, 8, 1500), (600000, 16, 10000)),
-            R("h26", "c07", "TestC07_Race", (300, 6, 1500), (30000, 8, 10000), race=True),
+            R("h26", "c07", "TestC07_Bubble", (4000, 8, 500), (600000, 16, 10000)),
+            R("h26", "c07", "TestC07_Race", (300, 6, 500), (30000, 8, 10000), race=True),
         ],
     },
     "C09": {
         "level": "exploration",
         "units": [
-            R("h26", "c09", "TestC09_Direct", (3000, 8, 1500), (600000, 16, 10000)),
-            E("h26", "c09", "TestC09_LRUExhaustive", (8, 1500), (16, 8000)),
+            R("h26", "c09", "TestC09_Direct", (3000, 8, 500), (600000, 16, 10000)),
+            E("h26", "c09", "TestC09_LRUExhaustive", (8, 500), (16, 8000)),
             R("h23", "c09p", "TestC09_Pubsub", (40, 1, 600), (1500, 4, 3000)),
         ],
     },
     "C16": {
         "level": "exploration",
         "units": [
-            R("h23", "c16", "TestC16_Histories", (3000, 8, 1500), (1000000, 16, 10000)),
+            R("h23", "c16", "TestC16_Histories", (3000, 8, 500), (1000000, 16, 10000)),
             R("h23", "c16", "TestC16_Topic", (60, 4, 900), (6000, 8, 10000)),
             R("h23", "c16", "TestC16_CloseRace", (80, 4, 300), (8000, 8, 10000)),
         ],
